@@ -148,9 +148,20 @@ def make_python_functions(log=None, fault=None, sites=None):
 
 
 def _fsum(xs):
+    """Exact sum; Inexact unless the terms can be added in doubles in *any* order without rounding (the back ends'
+    dot products and norms do not promise an order): all terms exact, and on their common binary grid the sum of the
+    magnitudes stays below 2**53."""
+    xs = list(xs)
     r = Fraction(0)
+    den = 1
+    mag = Fraction(0)
     for x in xs:
+        check_exact(x)
         r += x
+        den = max(den, x.denominator)
+        mag += abs(x)
+    if mag * den >= 2 ** 53:
+        raise Inexact()
     return r
 
 
@@ -291,8 +302,15 @@ def ref_subscript(agg, aggtree, idx):
 
 
 class CheckedEvaluator(T.Evaluator):
+    """Every node value and every partial sum/product must be exactly representable: the back ends compute in
+    doubles, and a rounded intermediate result may change a final value that is itself representable."""
+
     def rec(self, t):
         v = T.Evaluator.rec(self, t)
+        check_exact(v)
+        return v
+
+    def partial(self, v):
         check_exact(v)
         return v
 
